@@ -61,6 +61,9 @@ func (s Step) String() string {
 		if s.A > 1 {
 			return fmt.Sprintf("#%d.AddOne()x%d", s.Inst, s.A)
 		}
+	case "Churn":
+		// A operations drawn from the stream B (expanded by the runner, each one checked)
+		return fmt.Sprintf("#%d.Churn(%d ops, stream %d)", s.Inst, s.A, s.B)
 	}
 	return fmt.Sprintf("#%d.%s()", s.Inst, s.Op)
 }
